@@ -16,7 +16,7 @@ PROP = {
                   "modelled as an association list with distinct keys; f64 fields are tokens (Rust shortest decimal text), so NaN and -0 are outside the model; "
                   "the XML codecs of font/fill/border/alignment/protection/format code are parameters with a round-trip-up-to-normalisation hypothesis.",
     "expect_theorems": ["C05_tables_match_source", "C05_init", "C05_get_set", "C05_reload", "C05_get_set_reload", "C05_get_set_all", "C05_no_merge", "C05_no_growth", "C05_no_growth_resave", "C05_cols",
-                        "C05_col_key_injective", "C05_font_key_fails", "C05_color_key_fails", "C05_key_lookup_merges_fails", "C05_eq_lookup_separates"],
+                        "C05_col_key_injective", "C05_pattern_fill_reload", "C05_pattern_fill_no_merge", "C05_setter_auto_solid", "C05_font_key_fails", "C05_color_key_fails", "C05_key_lookup_merges_fails", "C05_eq_lookup_separates"],
     "rule": "one case = one workbook (reset, cell/row/col assignments, save). Streams: (1) every adjacent-field collision pair of the concatenated keys of the unfixed code "
             "(font name|size, size|family, name 'empty!!' vs none, colour argb|tint inside font / pattern fill / border edge / gradient stop, colour none vs argb 'empty!!'), each pair "
             "alone in both orders and all together; (2) one workbook per component with every attribute varied one at a time around a base value, all near-duplicates coexisting "
@@ -42,7 +42,8 @@ PROP = {
     "partial_clauses": [
         "the per-attribute XML codecs of font / fill / border / alignment / protection / numFmt code are parameters of the Lean theorems (round trip = an idempotent normalisation `norm`); "
         "that `norm` preserves the effective value of each of the ~60 attributes is established by the harness oracle only (each attribute varied one at a time, reload, compare through the public getters)",
-        "known finding: a pattern fill none/unset + fgColor reloads as solid (reader-side auto_set_pattern_type) - a codec defect, outside the interning theorems",
+        "the pattern-fill codec is also modelled concretely (after fix 90daeac: the reader no longer turns none/unset + fgColor into solid): C05_pattern_fill_reload / "
+        "C05_pattern_fill_no_merge hold for every pattern fill; that model of write_to / set_attributes is tied to the code by the save/reload oracle only (not by the driver's dump)",
         "row height / customHeight / hidden and the `s` attribute of rows are in the model and in the correspondence dump; their survival after reload is checked by the oracle, no Lean theorem",
         "the differential-format table (dxfs, conditional formatting) is still searched by get_hash_code and is outside this property",
     ],
